@@ -246,7 +246,8 @@ pub fn main(tier: Tier, replay: Option<String>) -> i32 {
     let norm_overflow = "\u{fdfa}".repeat(2000); // 6000 bytes -> 66000 bytes
     let long = "東京都に行く1,000円㍿東京府ab".repeat(6);
     // the last one is rewritten right at its start (a stale offset map would hit the probes)
-    let texts: Vec<String> = vec![long, "京".into(), "".into(), too_long, norm_overflow, "二千三百円".into(), "東京都ab𠮷野".into(), "Ａ㍿京都".into(), "…京".into()];
+    let texts: Vec<String> = vec![long, "京".into(), "".into(), too_long, norm_overflow, "二千三百円".into(), "東京都ab𠮷野".into(), "Ａ㍿京都".into(), "…京".into(), "京都に".repeat(2750)];
+    // (the very last one is accepted and has 8250 characters: whatever grows with the longest text seen so far has grown)
     // (the last one is rewritten without a change of its byte length: `…` becomes `...`)
     let probes: Vec<String> = vec!["東京都に行く".into(), "1,000円ab㍿".into(), "𠮷野カタカタア".into()];
     let ops_for = |with_rewrite: bool| -> (Vec<Op>, Vec<InfoSubset>) {
@@ -272,6 +273,8 @@ pub fn main(tier: Tier, replay: Option<String>) -> i32 {
             Op::Analyse(6),
             Op::Analyse(7),
             Op::Analyse(8),
+            Op::Analyse(9),
+            Op::AnalyseNoCollect(9),
             Op::AnalyseNoCollect(0),
             Op::AnalyseNoCollect(4),
             Op::Collect,
